@@ -145,13 +145,18 @@ def strategy():
     from hypothesis import strategies as hs
     keych = 'abzAZ09_-'
     valch = 'abzAZ059/._-'
-    key = hs.builds(lambda a, b: a + b,
-                    hs.sampled_from('abzAZ'),
-                    hs.text(alphabet=keych, max_size=6))
+    key = hs.one_of(
+        hs.builds(lambda a, b: a + b, hs.sampled_from('abzAZ'),
+                  hs.text(alphabet=keych, max_size=6)),
+        hs.sampled_from(['encoding', 'encoding', 'length', 'indent',
+                         'version', 'format', 'line_endings', 'type',
+                         'mimetype']))
     val = hs.one_of(
         hs.text(alphabet=valch, min_size=1, max_size=8),
         hs.sampled_from(['1', '-1', '0', '007', '1_0', '--1', '-', '1-',
                          '/', '/x', 'text/plain', '1.0', 'utf-8', '_',
+                         'latin1', 'UTF-8', 'utf8', 'U8', 'L1', 'ASCII',
+                         'IBM037', 'utf_16', 'UTF-16LE', 'json', 'dos',
                          '9' * 25, '-0', '1e3', '0x10']))
     junk = [b'+', b':', b'#', b' ', b',', b'=', b'\t', b'\xc3\xa9', b'\xff',
             b'$', b'"', b'\r', b'\x00', b'a', b'9', b'/', b'.', b';', b'(']
